@@ -33,6 +33,8 @@ OpsOf(cls, s) ==
     [] cls = "ConnectRand" -> {RandClient(i) : i \in 1..2}
     [] cls = "ConnectHonest" -> {Honest(k) : k \in Enrolled(s)}
     [] cls = "ConnectNear" -> UNION {Mutate(Honest(k)) : k \in Enrolled(s)}
+    [] cls = "ConnectMixed" -> {[c EXCEPT !.kind = RE({"mixedFA", "mixedFA", "mixedAF"})] :
+                                  c \in UNION {{Honest(k), [Honest(k) EXCEPT !.chain = "self", !.ck = RE(CertKeys)], [Honest(k) EXCEPT !.priv = FALSE]} : k \in Enrolled(s)}}
     [] cls = "ConnectOther" -> {[op |-> "Connect", kind |-> RE({"base", "fetch"}), k |-> RE(CertKeys), ck |-> RE(CertKeys), chain |-> "self",
                                  priv |-> TRUE, nsig |-> NONE, stt |-> NONE, skip |-> FALSE, nid |-> NONE, pref |-> NONE, cn |-> FALSE]}
     [] cls = "Dial" -> {[op |-> "Dial", k |-> k, ex |-> RE({"none", "one", "many", "dups", "prefixlike"}),
